@@ -1,3 +1,4 @@
+import codecs
 import io
 import logging
 import re
@@ -308,6 +309,19 @@ class PDFConverter(PDFLayoutAnalyzer, Generic[IOType]):
         self.outfp: IOType = outfp
         self.codec = codec
         self.outfp_binary = self._is_binary_stream(self.outfp)
+        self._encoder: Optional[codecs.IncrementalEncoder] = None
+
+    def _encode(self, text: str, errors: str = "strict") -> bytes:
+        """Encode one piece of the output for a binary stream.
+
+        A single incremental encoder serves the whole stream, so that codecs
+        with a byte-order mark or a shift state (utf-16, utf-32, ...) emit it
+        once per stream and not once per write.
+        """
+        if self._encoder is None:
+            factory = codecs.getincrementalencoder(self.codec or "utf-8")
+            self._encoder = factory(errors)
+        return self._encoder.encode(text)
 
     @staticmethod
     def _is_binary_stream(outfp: AnyIO) -> bool:
@@ -343,9 +357,7 @@ class TextConverter(PDFConverter[AnyIO]):
     def write_text(self, text: str) -> None:
         text = utils.compatible_encode_method(text, self.codec, "ignore")
         if self.outfp_binary:
-            cast(BinaryIO, self.outfp).write(
-                text.encode(self.codec or "utf-8", "ignore"),
-            )
+            cast(BinaryIO, self.outfp).write(self._encode(text, "ignore"))
         else:
             cast(TextIO, self.outfp).write(text)
 
@@ -732,7 +744,7 @@ class XMLConverter(PDFConverter[AnyIO]):
 
     def write(self, text: str) -> None:
         if self.codec:
-            cast(BinaryIO, self.outfp).write(text.encode(self.codec))
+            cast(BinaryIO, self.outfp).write(self._encode(text))
         else:
             cast(TextIO, self.outfp).write(text)
 
